@@ -260,6 +260,8 @@ def run(ctx):
     locking_obligations(ctx)
     bounded_cutpoints(ctx)
     ctx.replayers['C17.setter.'] = replay_setter
+    ctx.replayers['C17.step.'] = replay_step
+    ctx.replayers['C17.finish.'] = replay_step
     ctx.replayers['C17.'] = lambda r: dict(reproduced=None, detail='invariant-based obligation; see solver model')
 
 def _setter_info(name):
@@ -413,3 +415,25 @@ def replay_setter(r):
         if raised != 'IllegalStateError' or after != before:
             out.append(f'{label}: assigning .{nm} on a STARTED tableau raised {raised}; (argument, logic) {before} -> {after}')
     return dict(reproduced=bool(out), detail='; '.join(out) or 'every started tableau refused the assignment and kept its argument and logic')
+
+
+def replay_step(r):
+    "a real tableau finished by hand part-way (premature), then stepped / built / finished again: nothing may move"
+    from pytableaux.proof import Tableau
+    from pytableaux.lang import Argument
+    out = []
+    for L, a in (('CPL', 'NAab:KNaNb'), ('K3', 'Kab:Aab:Cab'), ('K', 'Lb:LAab:LNa')):
+        t = Tableau(L, Argument(a)); t.step(); t.finish()
+        snap = (len(t.history), len(t), len(t.open), t.valid, t.invalid, t.premature, t.finished, t.stats.get('result'))
+        try:
+            e = t.step(); t.build(); t.finish()
+        except Exception as ex:
+            out.append(f'{L} {a}: step()/build() after finish() raised {type(ex).__name__}'); continue
+        now = (len(t.history), len(t), len(t.open), t.valid, t.invalid, t.premature, t.finished, t.stats.get('result'))
+        if e is not None or now != snap: out.append(f'{L} {a}: after finish() (history, branches, open, valid, invalid, premature, finished, result) was {snap}; after step()/build() it is {now}')
+    for L, a in (('CPL', 'NAab:KNaNb'),):
+        t = Tableau(L, Argument(a), max_steps=1).build()
+        snap = (len(t.history), t.valid, t.premature)
+        t.step(); t.build()
+        if (len(t.history), t.valid, t.premature) != snap or len(t.history) > 1: out.append(f'{L} {a} max_steps=1: {snap} -> {(len(t.history), t.valid, t.premature)}')
+    return dict(reproduced=bool(out), detail='; '.join(out[:3]) or 'finished tableaux stay as they are')
